@@ -131,7 +131,10 @@ bool RangeExpression::parse()
             {
                if (mRangeString[ mNextPos] == ExcludeStart)
                {
-                  ++inner_exclude;
+                  // every level is evaluated by a nested range expression: a
+                  // range string of some 100 kByte could exhaust the stack
+                  if (++inner_exclude > MaxExcludeDepth)
+                     return false;
                } else if (mRangeString[ mNextPos] == ExcludeEnd)
                {
                   if (inner_exclude > 0)
